@@ -1,6 +1,5 @@
 (* C17 -- a process crash at any point never makes Darr return wrong data. *)
 From Coq Require Import ZArith List Bool.
-From Coq Require String.
 From Darr Require Import Base ArrayModel RaggedModel Spec Crash Proofs.ArrayRefine Proofs.ArrayHist Proofs.CrashSafe
      Proofs.RaggedBase Proofs.RaggedRefine Proofs.RaggedProps Proofs.RCrashSafe
      Skel Gen_effects EffectOrder Proofs.SkelProofs EffectOrderR Proofs.SkelRProofs Proofs.SkelTeeth.
@@ -140,10 +139,12 @@ Proof. cbn. split; reflexivity. Qed.
 
 (* the skeleton semantics discriminates: a truncate_array that rewrote the description
    before cutting the file, and a truncate_raggedarray that cut values/ before indices/
-   (seeded change C17-m27), would NOT admit the logs of the model *)
+   (seeded change C17-m27), would NOT admit the logs of the model
+   (sk_swapped_truncate = _update_len; truncate,  sk_values_first = truncate_array@_values;
+   truncate_array@_indices, Proofs/SkelTeeth.v) *)
 Example C17_order_semantics_discriminates :
-  (~ aruns (Seq (Call "_update_len"%string) (Call "truncate"%string)) Normal [KTrunc; KDescr; KReadme]) /\
-  (~ rruns (Seq (Call "truncate_array@_values"%string) (Call "truncate_array@_indices"%string)) Normal
+  (~ aruns sk_swapped_truncate Normal [KTrunc; KDescr; KReadme]) /\
+  (~ rruns sk_values_first Normal
            (map KI [KTrunc; KDescr; KReadme] ++ map KV [KTrunc; KDescr; KReadme])).
 Proof. exact (conj swapped_truncate_not_admitted ragged_values_first_not_admitted). Qed.
 
